@@ -21,7 +21,8 @@ RULE = ('Engine "probe": DAGs (1-7 nodes) of probing tasks - default filter_cont
         'run() reports pid, parent pid, native thread id, the module global, the list, and its value embeds a digest of '
         'self.context. Oracle: value == reference evaluator with the reference-filtered context (context clause, every backend); '
         'serial: pid and thread == the caller\'s; fork: pid != caller, all task pids pairwise distinct, parent pid == caller, '
-        'mutated global and list VISIBLE; spawn: same pid rules, mutated global and list NOT visible (fresh interpreter). Engine '
+        'mutated global and list VISIBLE; spawn: same pid rules, mutated global and list NOT visible (fresh interpreter). Engine "scale": the same oracle on '
+        '24-80 independent tasks queued behind 1-3 workers. Engine '
         '"ctx-independence" (metamorphic): the same tasks (some of whose results embed the running task object itself) run under two different contexts into two stores must produce identical '
         'key sets, identical result files byte for byte and identical metadata.json modulo the two timing fields. Non-trivial = '
         '>= 2 nodes with different filter parameters and backend != serial (probe), >= 2 tasks (ctx). Distinct = hash of spec.')
@@ -147,6 +148,19 @@ def probe_spec(backend: str):
     return st.builds(fix, base, st.dictionaries(st.sampled_from(['a', 'b', 'c', 'zz', 'other']), CTX_VALUES, max_size=4), st.booleans())
 
 
+def scale_spec(backend: str):
+    """Many more tasks than workers (a long executor backlog): every task must still get a process of its own."""
+    @st.composite
+    def gen(draw):
+        n = draw(st.integers(24, 30)) if backend == 'spawn' else draw(st.integers(24, 80))
+        nodes = [{'id': i, 'type': draw(st.sampled_from(['NN', 'Z', 'NN', 'N3'])), 'name': f'n{i}', 'mode': 'probe', 'read': True, 'payload': None,
+                  'deps': {'s': None}} for i in range(n)]
+        lab = {'backend': backend, 'max_workers': 1 if backend == 'spawn' else draw(st.sampled_from([1, 1, 2, 3])), 'continue_on_failure': True,
+               'bust_cache': False, 'storage': draw(st.sampled_from(['local', 'none'])), 'displays': False, 'context': {}}
+        return {'nodes': nodes, 'requested': [{'ref': i, 'fresh': False} for i in range(n)], 'lab': lab, 'pre_cached': [], 'schedule': []}
+    return gen()
+
+
 def _with_self_embedding(nodes, flags):
     out = []
     for n, f in zip(nodes, flags + [False] * len(nodes)):
@@ -167,6 +181,8 @@ def plan(tier: str) -> list[dict]:
     jobs += [{'engine': 'probe:spawn', 'n': 4 if q else 60, 'hashseed': 5 + i} for i in range(4)]
     # fork and spawn Labs alternating inside ONE process (state shared between runner classes would leak from one to the other)
     jobs += [{'engine': 'probe:mixed', 'n': 8 if q else 150, 'hashseed': 6 + i} for i in range(2)]
+    # scale: 24-80 independent tasks on 1-3 workers (per-task process identity must not depend on the length of the backlog)
+    jobs += [{'engine': 'scale:fork', 'n': 4 if q else 80, 'hashseed': 4}, {'engine': 'scale:spawn', 'n': 1 if q else 8, 'hashseed': 5}]
     jobs += [{'engine': 'ctx', 'backends': ['serial'], 'n': 40 if q else 1500, 'hashseed': 2},
              {'engine': 'ctx', 'backends': ['fork'], 'n': 12 if q else 400, 'hashseed': 3}]
     return jobs
@@ -177,6 +193,9 @@ def run_job(rec: core.Recorder, job: dict, seed: int) -> None:
     if e == 'probe:mixed':
         core.run_hypothesis(rec, e, st.one_of(probe_spec('fork'), probe_spec('spawn'), probe_spec('fork')), check_probe, max_examples=job['n'], seed=seed,
                             shrink=False)
+        return
+    if e.startswith('scale:'):
+        core.run_hypothesis(rec, e, scale_spec(e.split(':')[1]), check_probe, max_examples=job['n'], seed=seed, shrink=False)
         return
     if e.startswith('probe:'):
         b = e.split(':')[1]
